@@ -12,7 +12,10 @@ KNOWN_FILE = os.path.join(VERIF, "known_findings.txt")
 # runs against a scratch copy (mutation campaign) must not touch the committed evidence
 # VERIF_COVDIR=<dir> is a diagnostic mode (not a check): every variant is built with gcov instrumentation into <dir>, kept afterwards
 COVDIR = os.environ.get("VERIF_COVDIR")
-_ALT = os.path.realpath(B.REPO) != "/repo" or bool(COVDIR)
+# VERIF_SAN=msan is a second diagnostic mode: the executor variants of the check are built with that sanitizer instead of their own
+# (the whole workload of any check under MemorySanitizer); evidence goes to .build/alt like every run that is not the registered check
+FORCE_SAN = os.environ.get("VERIF_SAN")
+_ALT = os.path.realpath(B.REPO) != "/repo" or bool(COVDIR) or bool(FORCE_SAN)
 EVDIR = os.path.join(VERIF, ".build", "alt", "evidence") if _ALT else os.path.join(VERIF, "evidence")
 RPDIR = os.path.join(VERIF, ".build", "alt", "replays") if _ALT else os.path.join(VERIF, "replays")
 
@@ -124,6 +127,9 @@ def main(module, argv):
             if kw.get("thorough_only") and tier != "thorough":
                 continue
             kw = {k: x for k, x in kw.items() if k != "thorough_only"}
+            if FORCE_SAN and exe == "cosim" and variant in ("asan", "asan2", "casan", "plain", "plain2", "ubsan"):
+                exes[variant] = B.build(FORCE_SAN, os.path.join(bdir, "as-" + variant), harness=harness, exe=exe, extra_defs=B.VARIANTS[variant][2], **kw)
+                continue
             if COVDIR:
                 kw = {k: x for k, x in kw.items() if k != "rename_text"}
                 exes[variant + ":" + exe if exe != "cosim" else variant] = B.build("cov", os.path.join(COVDIR, prop + "-" + variant), harness=harness, exe=exe,
